@@ -91,6 +91,16 @@ PROPS = {
              'case_scale': {'B_SGal3_SE2_SE23_SO3_R1_d': 0.3}},
         ],
     },
+    'C13': {
+        'rule': 'constructor arguments: angles over +-20 pi incl. multiples of pi/2 and near-pi values, forced gimbal pitch, quaternions of both hemispheres (element strata of 1.3), translations/velocities/time 0..1e6, norm deviation delta/eps in {0,.1,.5,.9,1.1,2,10,1e3,1e12} x sign; non-trivial: angle outside the principal range, gimbal, w<0, or delta within a factor 2 of eps',
+        'assumptions': ['reference rotations (Rz Ry Rx, Rodrigues via the reference exponential) in long double', 'two builds: assertions enabled and -DNDEBUG'],
+        'stages': [
+            {'src': 'C13.cpp', 'configs': D_GROUPS + ['R1d'] + F_GROUPS + ['SGal3f', 'B_SE3_SO2_R3_d', 'B_SE3_SO2_R3_f', 'B_SGal3_SE2_SE23_SO3_R1_d'],
+             'cases': {'quick': 6000, 'thorough': 300000}, 'shards': {'quick': 1, 'thorough': 2}},
+            {'src': 'C13.cpp', 'configs': ['SO2d', 'SE2d', 'SO3d', 'SE3d', 'SE_2_3d', 'SGal3d', 'SE3f', 'B_SE3_SO2_R3_f'], 'tag': '-ndebug', 'defs': ['-DNDEBUG'],
+             'cases': {'quick': 3000, 'thorough': 100000}, 'shards': {'quick': 1, 'thorough': 1}},
+        ],
+    },
     'C11': {
         'rule': 'bundle layouts covering every group first/middle/last, repeated and single, differing DoF/RepSize/Dim/matrix sizes; per-element inputs of 1.3; non-trivial: >= 2 elements with different DoF and input non-identity in every element',
         'assumptions': ['offsets are recomputed by the harness as prefix sums of the documented per-group sizes (engine/vf_ref.cpp Spec), not read from manif traits',
